@@ -486,6 +486,14 @@ void runImage(const Image &im, const std::string &what)
 }
 
 // ---------------------------------------------------------------- enumeration
+bool pastDeadline()
+{
+    V::State &st = V::S();
+    if (st.sh->deadlineHit) return true;
+    if (st.ctx.deadlineS > 0 && !st.ctx.replay && difftime(time(nullptr), st.start) > st.ctx.deadlineS) { st.sh->deadlineHit = 1; return true; }
+    return false;
+}
+
 void layouts(int n, int maxSlotsPerEntry, bool twoEntries, std::vector<std::vector<EntryPlan>> &out)
 {
     // every injective placement of one entry (1..max slots), and of two entries (sizes a <= b)
@@ -562,15 +570,18 @@ void body(V::Ctx &ctx)
         if (FILE *f = fopen("/proc/self/status", "r")) { char b[256]; while (fgets(b, sizeof b, f)) if (!strncmp(b, "VmRSS", 5) || !strncmp(b, "VmPTE", 5) || !strncmp(b, "VmSize", 6)) fputs(b, stderr); fclose(f); }
     }
 
-    struct Plan { int n; bool pairs; };
+    // plan: (number of slots, which base layouts, single or double deviations)
+    struct Plan { int n; int minEntries; bool pairs; };
     std::vector<Plan> plans;
-    if (ctx.quick()) plans = {{4, false}};
-    else plans = {{5, false}, {4, true}};
+    if (ctx.quick()) plans = {{3, 1, false}, {4, 2, false}};
+    else plans = {{4, 1, false}, {5, 1, false}, {3, 1, true}};
 
     for (const Plan &pl : plans) {
         std::vector<std::vector<EntryPlan>> ls;
         layouts(pl.n, 3, true, ls);
         for (const auto &es : ls) {
+            if ((int)es.size() < pl.minEntries) continue;
+            if (pastDeadline()) break;
             const Image base = baseImage(pl.n, es);
             const std::vector<Dev> devs = deviations(base, true);
             const std::string lname = layoutName(pl.n, es);
@@ -582,6 +593,7 @@ void body(V::Ctx &ctx)
                     V::failKey("harness:valid-base-image-not-fully-indexed", lname + ": " + std::to_string(verdict->readable) + " readable entries instead of " + std::to_string(es.size()));
                 else V::count("base_images_fully_indexed");
                 for (const Dev &d : devs) {
+                    if (pastDeadline()) break;
                     Image im = base;
                     if (!applyDev(im, d)) continue;
                     runImage(im, lname + " + " + d.name);
@@ -595,6 +607,7 @@ void body(V::Ctx &ctx)
                     Image one = base;
                     if (applyDev(one, devs[i])) {
                         for (size_t j = 0; j < second.size(); ++j) {
+                            if (pastDeadline()) break;
                             if (devs[i].kind == Dev::Field && second[j].slot == devs[i].slot && second[j].field == devs[i].field) continue;
                             if (devs[i].kind == Dev::Field && (second[j].slot < devs[i].slot || (second[j].slot == devs[i].slot && second[j].field < devs[i].field))) continue; // unordered pairs once
                             Image two = one;
